@@ -212,3 +212,49 @@ def correspond_caf(run, cases, p, tag="caf"):
             run.diverge("check_and_fix_contrast==Cm.checkAndFixF", list(c), im, m)
         run.hit(tag + ".compared")
     return impl
+
+
+# ------------------------------------------------------------------ routine-level workers (C04)
+
+def w_routine(case):
+    """direct call of one of the three documented search routines"""
+    kind = case[0]
+    opt = _impl["opt"]
+    try:
+        if kind == "bs":
+            _, t, b, thr, target = case
+            r = opt.binary_search_lightness(tuple(t), tuple(b), thr, target)
+        elif kind == "gd":
+            _, t, b, thr, target = case
+            r = opt.gradient_descent_oklch(tuple(t), tuple(b), thr, target)
+        else:
+            _, t, b, target, minc, sched = case
+            r = opt.generate_accessible_color(tuple(t), tuple(b), False, target, minc, list(sched))
+        return None if r is None else tuple(int(x) for x in r)
+    except Exception as e:  # noqa
+        return ("raise", type(e).__name__ + ": " + str(e)[:200])
+
+
+def w_steps(case):
+    """check_and_fix_contrast with the multi-phase search wrapped: records every (input, schedule,
+    output) step taken inside the run"""
+    t, b, large, mode, very = case
+    opt = _impl["opt"]
+    orig = getattr(opt, "generate_accessible_color", None)
+    steps = []
+    if orig is None:
+        return ("nowrap", None, None)
+
+    def wrapped(text_rgb, bg_rgb, large=False, target_contrast=None, min_contrast=None, delta_e_sequence=None):
+        out = orig(text_rgb, bg_rgb, large, target_contrast, min_contrast, delta_e_sequence)
+        steps.append((tuple(text_rgb), None if delta_e_sequence is None else list(delta_e_sequence), tuple(out)))
+        return out
+
+    opt.generate_accessible_color = wrapped
+    try:
+        r, ok = opt.check_and_fix_contrast(tuple(t), tuple(b), bool(large), mode, bool(very))
+        return (_norm_rgb(r), bool(ok), steps)
+    except Exception as e:  # noqa
+        return ("raise", type(e).__name__ + ": " + str(e)[:200], steps)
+    finally:
+        opt.generate_accessible_color = orig
